@@ -431,7 +431,7 @@ def native_replay_generic(ctx, job, p, vals, extra_cflags=()):
     if r.returncode != 0:
         return False, "native build failed:\n" + r.stderr.decode(errors="replace")[-3000:], cmd
     try:
-        rr = subprocess.run([exe], capture_output=True, timeout=60, cwd=d)
+        rr = subprocess.run([exe], capture_output=True, timeout=60, cwd=d, env=dict(os.environ, ASAN_OPTIONS="detect_leaks=0"))   # harness objects are not freed: leaks are not findings
         out = rr.stdout.decode(errors="replace") + rr.stderr.decode(errors="replace")
         rc = rr.returncode
     except subprocess.TimeoutExpired:
